@@ -10,7 +10,7 @@ from . import gen
 KDIR = os.path.join(gen.VERIF, 'kani')
 
 
-def run_harnesses(names, unwind=12, timeout=3000):
+def run_harnesses(names, unwind=12, timeout=900):
     """Returns dict name -> {status: ok|failed|undecided, checks, failed_checks, seconds, failed_desc, raw}"""
     if not names:
         return {}, ''
